@@ -27,7 +27,8 @@ ASSUMPTIONS = [
     "the transport is reliable and FIFO until it breaks; a break loses every frame in flight in both directions and "
     "both endpoints see it (EOF) before the next connection is made; frames arrive one per read()",
     "application hooks return normally; should_replay is the library default (True); the application sends only "
-    "application messages (type outside 0 1 2 4 5 A, no header/trailer tags 8 9 10 34 35 43 49 52 56 122) and the "
+    "application messages (type outside 0 1 2 4 5 A, no header/trailer tags 8 9 10 34 35 49 52 56; an explicit "
+    "PossDupFlag(43) other than Y and an OrigSendingTime(122) are allowed and generated) and the "
     "initiator's on_connect sends Logon(98=0, 108=hb)",
     "the heartbeat watchdog does not fire during the run (no tick events; C12 covers it on one endpoint)",
     "messages carry plain tags only; journals behave as the abstract store (C13); frame <-> field list is C01",
@@ -261,9 +262,17 @@ def short(ev):
 # ------------------------------------------------------------------------------------------------
 
 def payload(side, n):
+    """application messages of 4 kinds; every 3rd one carries header-ish tags an application may legally set itself:
+    an explicit PossDupFlag=N, sometimes with a stale OrigSendingTime (the resend logic must overwrite the flag)"""
     kinds = [("D", [(11, f"{side}{n}"), (58, f"text {n}")]), ("8", [(37, f"{side}x{n}"), (58, "café")]),
              ("U7", [(58, f"{side}-{n}")]), ("3", [(45, str(n)), (58, side)])]
-    return kinds[n % len(kinds)] if n % 5 else kinds[0]
+    mt, tags = kinds[n % len(kinds)] if n % 5 else kinds[0]
+    tags = list(tags)
+    if n % 3 == 1:
+        tags.append((43, "N"))
+        if n % 2:
+            tags.append((122, S.stamp(T0 - 60_000)))
+    return (mt, tags)
 
 
 def gen_walk(pair: Pair, rng, max_len, max_breaks, on_event=None):
@@ -356,9 +365,11 @@ ALPHABET = ["sI", "sA", "dA", "dI", "b", "r"]
 
 def alpha_event(name, pair: Pair):
     if name == "sI":
-        return ("s", "I", T0, ("D", [(58, f"i{len(pair.accepted['I'])}")]))
+        k = len(pair.accepted['I'])
+        return ("s", "I", T0, ("D", [(58, f"i{k}")] + ([(43, "N")] if k % 2 else [])))
     if name == "sA":
-        return ("s", "A", T0, ("D", [(58, f"a{len(pair.accepted['A'])}")]))
+        k = len(pair.accepted['A'])
+        return ("s", "A", T0, ("D", [(58, f"a{k}")] + ([(43, "N"), (122, S.stamp(T0 - 60_000))] if k % 2 else [])))
     if name == "dA":
         return ("d", "A", T0)
     if name == "dI":
